@@ -8,23 +8,38 @@ from ..common import fsd, fse
 from ..runner import ok, violation, inconclusive
 
 RULE = ("scenario trees (hard-link sets, classes leaving at the prefix, suffix and content stage, nested directories, a decoy, "
-        "a unique file) x configurations (disk kind pinned to ssd/hdd/unknown, ext4/tmpfs, thread pools); a recording run "
+        "a unique file) x configurations (disk kind pinned to ssd/hdd/unknown, ext4/tmpfs, thread pools, the tree given as one root or as a "
+        "list of directories and files on --stdin, where faults on the input paths themselves are included); a recording run "
         "under the shim counts, per path, the stat/open/read/opendir/readdir/fiemap calls; then for every file or directory "
         "X and every observed call position one run injects EACCES, EIO or ENOENT into exactly that call (exact path match, "
         "n-th per path); (thorough) pairs of faults on two files. Oracle: exit 0 with a complete report that equals the "
         "reference partition of the tree without X (without X's subtree for a directory; entries not yet returned by a "
-        "failed readdir are don't-care; a failed FIEMAP query must change nothing); a warning names X unless the error was "
+        "failed readdir are don't-care; a failed FIEMAP query must change nothing; a failed stat after which the report is exactly the fault-free one, i.e. "
+        "whose result was not needed, is accepted); a warning names X unless the error was "
         "ENOENT. non-trivial = case whose fault fired; a case whose fault never fired is inconclusive")
 
 ERRNOS = [errno.EACCES, errno.EIO, errno.ENOENT]
 CONFIGS = [
     {"kind": "ssd", "fs": "ext4", "threads": None},
+    {"kind": "hdd", "fs": "ext4", "threads": None, "inputs": "stdin"},
     {"kind": "hdd", "fs": "ext4", "threads": None},
     {"kind": "unknown", "fs": "ext4", "threads": ["default:2,2"]},
     {"kind": "ssd", "fs": "tmpfs", "threads": ["1"]},
     {"kind": "hdd", "fs": "tmpfs", "threads": None},
     {"kind": None, "fs": "ext4", "threads": ["main:1", "default:1,1"]},
+    {"kind": "ssd", "fs": "tmpfs", "threads": ["main:1"], "inputs": "stdin"},
 ]
+
+# with "inputs": "stdin" the same files are handed over as a list of directories and single files on standard input
+# (which fclones does not check for existence up front), so that a fault on an input path is a per-entry fault too
+STDIN_INPUTS = ["r0/sub", "r0/a1", "r0/other dir", "r0/c", "r0/d1", "r0/e-decoy", "r0/g3", "r0/unique"]
+
+
+def inputs_for(cfg, si, ci):
+    r = common.rng_for(si, "C15inputs", ci)
+    l = list(STDIN_INPUTS)
+    r.shuffle(l)
+    return l
 
 
 def scenario_spec(si):
@@ -50,9 +65,12 @@ def scenario_spec(si):
     return {"entries": e, "roots": ["r0"]}
 
 
-def run_group(cfg, troot, home, plan, log):
+def run_group(cfg, troot, home, plan, log, inputs=None):
     o = {"hash_fn": "metro", "kind": cfg["kind"], "threads": cfg["threads"]}
     env = shimlog.shim_env(log, [troot], plan)
+    if inputs:
+        return gm.run_group(o, [], troot, home, extra_args=["--stdin"], stdin=("\n".join(inputs) + "\n").encode(),
+                            extra_env=env, timeout=60)
     return gm.run_group(o, ["r0"], troot, home, extra_env=env, timeout=60)
 
 
@@ -85,7 +103,8 @@ def run_case(arg):
         files = file_table(troot)
         full = gm.expected_partition(files, {}, None)
         log = os.path.join(d, "rec.log")
-        res, argv = run_group(cfg, troot, home, None, log)
+        inputs = inputs_for(cfg, si, ci) if cfg.get("inputs") == "stdin" else None
+        res, argv = run_group(cfg, troot, home, None, log, inputs)
         if res.rc != 0:
             return [inconclusive("recording run failed")]
         rep = reports.parse_json(res.out)
@@ -132,13 +151,13 @@ def run_case(arg):
                 continue
             reps = 3 if files.get(sp[0]) and sum(1 for q in files.values() if q["id"] == files[sp[0]]["id"]) > 1 else 1
             for rep_i in range(reps):
-                out.append(_one(cfg, ci, si, troot, home, d, files, full, sp))
+                out.append(_one(cfg, ci, si, troot, home, d, files, full, sp, inputs))
         return out
     finally:
         scratch.cleanup()
 
 
-def _one(cfg, ci, si, troot, home, d, files, full, sp):
+def _one(cfg, ci, si, troot, home, d, files, full, sp, inputs=None):
     X, op, nth, en, second = sp
     harmless = op in ("fiemap", "open-fiemap")
     shim_op = "open" if op.startswith("open-") else op
@@ -151,10 +170,10 @@ def _one(cfg, ci, si, troot, home, d, files, full, sp):
     log = os.path.join(d, "fault.log")
     if os.path.exists(log):
         os.unlink(log)
-    res, argv = run_group(cfg, troot, home, shimlog.plan(*rules), log)
+    res, argv = run_group(cfg, troot, home, shimlog.plan(*rules), log, inputs)
     ev, fired, junk = shimlog.parse(log)
     is_dir = os.path.isdir(X)
-    witness = {"scenario": si, "config": cfg, "fault": {"path": fsd(X), "op": op, "nth": nth, "errno": en,
+    witness = {"scenario": si, "config": cfg, "stdin_inputs": inputs, "fault": {"path": fsd(X), "op": op, "nth": nth, "errno": en,
                                                        "second": [fsd(second[0])] + list(second[1:]) if second else None},
                "argv": [fsd(a) for a in argv], "rc": res.rc, "stderr": res.err_text()[-2500:], "fired": fired}
     if res.timed_out:
@@ -190,7 +209,12 @@ def _one(cfg, ci, si, troot, home, d, files, full, sp):
     expected = gm.expected_partition(remaining, {}, None)
     got_cmp = restrict(got, dontcare, files) if dontcare else got
     exp_cmp = restrict(expected, dontcare, files) if dontcare else expected
-    if got_cmp != exp_cmp:
+    # a failed stat whose result fclones did not need (the is-it-a-file probe on an input path; a later stat of the
+    # same path succeeds and the file is read completely) legitimately changes nothing
+    unaffected = op == "stat" and got == full
+    if unaffected:
+        harmless = True
+    elif got_cmp != exp_cmp:
         dd_ = gm.describe_partition_diff(exp_cmp, got_cmp)
         witness["diff"] = dd_
         hard = (not is_dir) and sum(1 for q in files.values() if q["id"] == files[X]["id"]) > 1
@@ -210,14 +234,15 @@ def _one(cfg, ci, si, troot, home, d, files, full, sp):
                              witness, sig=(ci, sigbase))
     sig = (si, ci, fsd(X), op, nth, en, bool(second))
     return ok(sig, {"config": cfg, "fault": witness["fault"]} if nth == 1 and en == errno.EIO and op.startswith("open") else None,
-              {"faults_fired": len(fired), "ops": [op], "configs": [ci], "pairs": 1 if second else 0})
+              {"faults_fired": len(fired), "ops": [op], "configs": [ci], "pairs": 1 if second else 0,
+               "stat_faults_without_effect": 1 if unaffected else 0, "faults_on_stdin_input_paths": 1 if inputs and op == "stat" else 0})
 
 
 def main(tier, seed, cases=None):
     build.build_rel()
     build.build_shim()
     nscn = 1 if tier == "quick" else 3
-    ncfg = cases or (4 if tier == "quick" else len(CONFIGS))
+    ncfg = cases or (5 if tier == "quick" else len(CONFIGS))
     nchunks = 4 if tier == "quick" else 8
     chk = common.Check("C15", "fault_enumeration", tier, seed, RULE,
                        ["faults are injected at libc level by the shim (root ignores permission bits, so chmod cannot be used)",
